@@ -14,7 +14,7 @@ Definition compact (b : bytes) : bytes :=
   else dec_of_N (N.of_nat n) ++ s2b ":" ++ firstn 24 b ++ s2b ".." ++ skipn (n - 8) b.
 
 (** calls on a thread's own objects *)
-Inductive wop := WRead (o : rop) | WNew | WDecJ | WDecC.
+Inductive wop := WRead (o : rop) | WNew | WDecJ | WDecC | WSer.
 
 Section Inst.
 Variable fx : fxcfg.
@@ -36,6 +36,7 @@ Definition wstepB (s : pstate) (o : wop) : pstate * bytes :=
   match o with
   | WRead r => rstepB s r
   | WNew => (s, s2b "ok:1")
+  | WSer => (s, s2b "*")        (* the embedding-aware serialisers on a private struct: judged by the race detector and the sequential run *)
   | WDecJ => (s, compact (match encode_json w c0 with Some j => dres_tok (decode_json cc w j) | None => s2b "na" end))
   | WDecC => (s, compact (match encode_cbor w c0 with Some b => dres_tok (decode_cbor cc w b) | None => s2b "na" end))
   end.
@@ -43,6 +44,7 @@ Definition wstepB (s : pstate) (o : wop) : pstate * bytes :=
 Definition parse_top (t : bytes) : option (top rop wop) :=
   match t with
   | [x6e] => Some (TPriv WNew)
+  | [x78] => Some (TPriv WSer)
   | [x4a] => Some (TPriv WDecJ)
   | [x43] => Some (TPriv WDecC)
   | x73 :: r => option_map TShared (parse_rop r)
